@@ -32,6 +32,7 @@ RULES = {
     "V1": rules_extra.rule_V1,
     "H1": rules_extra.rule_H1,
     "R1": rules_extra.rule_R1,
+    "P3": rules_state.rule_P3,
 }
 
 SELFTESTS = {"T1": rules_types.selftest_T1}
@@ -84,7 +85,8 @@ PROPS = {
                   "check before mixing it with plan tables; every foreign-bound subscript and caller-supplied index in a public "
                   "function is dominated by a live relating guard; slices are range-checked at creation and count-checked at "
                   "assignment; no noexcept function can reach a library throw; beliefs (DSPLIB_ASSUME/assert) of internal helpers "
-                  "are entailed by live checks of their public callers where the chain is modelled; no integer division by "
+                  "are entailed by live checks along every call chain from the public entry points (through constructors, "
+                  "make_shared and construction-time constant members) where the chain is modelled; no integer division by "
                   "never-initialised member state",
         "not_decided": "value-range safety of index arithmetic inside kernels (twiddle indices, polyphase offsets), termination "
                        "and complexity (except the C15 clause)",
@@ -97,18 +99,21 @@ PROPS = {
     "C06": {
         "id": "C06",
         "title": "Streaming processors are invariant to how the stream is framed",
-        "rules": ["H1", "V1", "P2"],
+        "rules": ["H1", "V1", "P2", "P3"],
         "clause": "structural necessary conditions of framing invariance: every array-valued state member a process() method rewrites "
                   "(delay line, history, overlap tail) receives a value that depends on its previous contents and on the input frame, "
                   "and the returned frame depends on the input and on that state (a history longer than the frame survives; no call "
                   "starts from rest); no lazy slice view is read after the array it denotes was written; separately constructed "
-                  "instances share no mutable static storage",
+                  "instances share no mutable static storage, and a member-wise copy of a processor never shares state that "
+                  "its process() changes through a shared_ptr member",
         "not_decided": "sample-exact equality of the concatenated output for all framings (index arithmetic of the hand-over, block "
                        "accumulators, ring indices), granularity checks",
         "explanation": "H1 runs a may-dependence analysis (through locals, pointer aliases and members) over every process() method "
                        "of a class with array-valued state; an absent dependence is definite because the analysis over-approximates. "
                        "V1 walks the CFG between the creation of a slice view, writes of the viewed array and later reads of the view. "
-                       "P2 enumerates every static-storage variable of the library.",
+                       "P2 enumerates every static-storage variable of the library.  P3 enumerates every class with a "
+                       "std::shared_ptr member, the ways its member functions modify the pointee through it, and what the class's "
+                       "copy construction / copy assignment do (clang's own answer: deleted, user-provided, member-wise).",
     },
     "C08": {
         "id": "C08",
@@ -116,7 +121,8 @@ PROPS = {
         "rules": ["R1", "H1"],
         "clause": "the documented rejections and the identity case: FIRDecimator and FIRRateConverter reject (by a live throwing check "
                   "on every path to a normal return) frames whose length is not a multiple of the decimation factor; resample returns "
-                  "its input unchanged when the reduced ratio is 1; each converter's history is handed over from its previous contents "
+                  "its input unchanged when the reduced ratio is 1; a rejected frame leaves the converter untouched (no member is written on "
+                  "a path that has not yet passed the check); each converter's history is handed over from its previous contents "
                   "and the input frame and is used by the output",
         "not_decided": "sample-exact agreement with the textbook chain for all L, M, h (branch schedule, offsets, gains, delay "
                        "compensation, output length)",
@@ -127,16 +133,19 @@ PROPS = {
     "C09": {
         "id": "C09",
         "title": "Concurrent use from several threads is race-free and result-preserving",
-        "rules": ["P1", "P2"],
+        "rules": ["P1", "P2", "P3"],
         "clause": "all structural preconditions of race freedom: no mutable static-storage state that is not thread_local; "
-                  "every const operation of every transform-plan class is free of writes to storage reachable from the object",
+                  "every const operation of every transform-plan class is free of writes to storage reachable from the object; "
+                  "distinct objects are distinct state - no class that is copied member-wise modifies what a shared_ptr member "
+                  "points to",
         "not_decided": "that each call returns what it would return single-threaded (follows from race freedom, not checked as values); "
                        "thread safety of the standard library itself",
         "explanation": "Free functions and distinct objects can share memory only through static storage (P2 enumerates every "
                        "static-storage variable of the library and requires constexpr/const/thread_local/sync type) or through "
                        "plan objects handed out as shared_ptr, on which only const operations exist and these must not write "
                        "object-reachable storage (P1: mutable members, const-removing casts, writes and non-const calls/arguments "
-                       "rooted at pointer-like members, in every const method of every plan class).",
+                       "rooted at pointer-like members, in every const method of every plan class); the third way - two "
+                       "objects of which one is a copy of the other - is closed by P3.",
     },
     "C10": {
         "id": "C10",
@@ -146,7 +155,8 @@ PROPS = {
                   "key (no mutable shared statics); lookup, creation and insertion use the same unmodified key and the inserted "
                   "value is the plan built for it; plans are handed out and held by shared ownership, so an evicted plan stays "
                   "alive; list and map updates of the LRU are paired in every control region; both caches have the configured "
-                  "capacity and evict against it",
+                  "capacity and every inserting member evicts against it with a size test that is not stale (nothing that can change "
+                  "the cache - a container write or a caller-supplied callable - runs between the test and its use)",
         "not_decided": "that eviction picks the least recently used key (recency order is a run-time history property)",
         "explanation": "Any plan returned for n was built by the factory for n (K1), is immutable (P1) and was built "
                        "deterministically from n (P2, K1), so results cannot depend on which other lengths were requested; K2 keeps "
